@@ -32,6 +32,11 @@ def main():
                 rep.harness_error(f"thread burst: {e!r}", e)
     for k, v in guards.budget_stats().items():
         rep.counters[("max:budget:" if k.startswith("max_") else "budget:") + k] = v
+    from . import proc
+
+    if proc.PLOTS["calls"]:
+        rep.count("plot_calls_before_judging", proc.PLOTS["calls"])
+        rep.count("plot_calls_raised", proc.PLOTS["failed"])
     rep.lines = guards.lines_hit()
     with open(out_path, "w") as fh:
         json.dump(rep.to_json(), fh)
